@@ -258,8 +258,32 @@ def kf10_double_flatten_rebinds_input(spec, problems):
     return "KF-10" if ok else None
 
 
+def kf17_output_is_leader(spec, problems):
+    """KF-17: uniform_occupancy(<output>.n): inputs are split at the boundaries of the (still
+    empty) output fiber, so every element is dropped and the result is EMPTY.  Explains only
+    an empty result (nothing computed, nothing extra) for an Einsum whose mapping names its
+    own output as occupancy leader."""
+    outs = set()
+    for e in spec.exprs:
+        for ds in ((spec.partitioning or {}).get(e.out.name) or {}).values():
+            if any(d.startswith("uniform_occupancy(%s." % e.out.name) for d in ds):
+                outs.add(e.out.name)
+    if not outs or not problems:
+        return None
+    for p in problems:
+        k = p.get("kind")
+        if k == "value-mismatch" and p.get("n_got") == 0 and not p.get("n_extra"):
+            continue
+        if k in ("differs-from-unmapped", "differs-from-unpartitioned") and \
+                p.get("tensor") in outs:
+            continue
+        return None
+    return "KF-17"
+
+
 def classify_plain(spec, problems):
     """The known findings that can show in any plain-mode execution."""
     return kf1_take_in_sum(spec, problems) or classify_name_error(spec, problems) or \
+        kf17_output_is_leader(spec, problems) or \
         kf9_output_only_multilevel(spec, problems) or \
         kf10_double_flatten_rebinds_input(spec, problems)
